@@ -22,14 +22,42 @@ struct Case {
     sdl: String,
     cfg: CfgCase,
     origin: String,
+    /// the generator's ABSTRACT model of the schema (merged, with the built-in scalars): the reference side of the O
+    /// streams (Ref_t, value domain) is computed from it, never from the real pipeline's resolved document, so that a
+    /// defect upstream of the printers (parsing, extension merging) cannot change both sides equally
+    model: Option<TsDoc>,
+    /// canonical SDL of the abstract model (for replay files)
+    model_sdl: Option<String>,
+}
+
+fn with_builtin_scalars(doc: &TsDoc) -> TsDoc {
+    let mut d = doc.clone();
+    for b in BUILTIN_SCALARS {
+        if d.type_def(b).is_none() {
+            d.items.push(TsItem::TypeDef(TypeDef::new(TypeKind::Scalar, b)));
+        }
+    }
+    d
 }
 
 impl Case {
+    fn text(sdl: String, cfg: CfgCase, origin: &str) -> Case {
+        Case { sdl, cfg, origin: origin.to_string(), model: None, model_sdl: None }
+    }
     fn to_json(&self) -> Value {
-        json!({"sdl": self.sdl, "cfg": self.cfg.to_json(), "origin": self.origin})
+        json!({"sdl": self.sdl, "cfg": self.cfg.to_json(), "origin": self.origin, "model_sdl": self.model_sdl})
     }
     fn from_json(v: &Value) -> Case {
-        Case { sdl: v["sdl"].as_str().unwrap_or("").to_string(), cfg: CfgCase::from_json(&v["cfg"]), origin: v["origin"].as_str().unwrap_or("replay").to_string() }
+        let model_sdl = v["model_sdl"].as_str().map(|s| s.to_string());
+        // replay: the abstract model is re-read from its canonical SDL (no extensions in it)
+        let model = model_sdl.as_ref().and_then(|m| with_schema(&[m.clone()], |resolved, _| from_real_tsdoc(resolved)).ok());
+        Case {
+            sdl: v["sdl"].as_str().unwrap_or("").to_string(),
+            cfg: CfgCase::from_json(&v["cfg"]),
+            origin: v["origin"].as_str().unwrap_or("replay").to_string(),
+            model,
+            model_sdl,
+        }
     }
 }
 
@@ -37,51 +65,29 @@ fn corpus() -> Vec<Case> {
     let base = "type Query { u: U s: S i: I f(a: [In!], b: E! = A): [[Foo!]]! }\n";
     let mut out = vec![];
     // §9-aa: a scalar mapping mentions an identifier that is also the name of an object type that is a union member
-    out.push(Case {
-        sdl: format!("scalar S\ntype Foo {{ id: ID! }}\ntype Bar {{ id: ID! }}\nunion U = Foo | Bar\ninterface I {{ id: ID! }}\ntype Baz implements I {{ id: ID! }}\nenum E {{ A B }}\ninput In {{ x: Int y: [E!]! }}\n{base}"),
-        cfg: CfgCase { scalars: vec![("S".into(), ScalarCfg::Single("Foo".into()))], optional: None, runtime: false },
-        origin: "corpus:clash-union-member".into(),
-    });
-    out.push(Case {
-        sdl: format!("scalar S\ntype Foo {{ id: ID! }}\ntype Bar {{ id: ID! }}\nunion U = Foo | Bar\ninterface I {{ id: ID! }}\ntype Baz implements I {{ id: ID! }}\nenum E {{ A B }}\ninput In {{ x: Int y: [E!]! }}\n{base}"),
-        cfg: CfgCase { scalars: vec![("S".into(), ScalarCfg::SendReceive { send: "Baz | string".into(), receive: "Baz".into() })], optional: Some(false), runtime: false },
-        origin: "corpus:clash-interface-implementer".into(),
-    });
+    out.push(Case::text(format!("scalar S\ntype Foo {{ id: ID! }}\ntype Bar {{ id: ID! }}\nunion U = Foo | Bar\ninterface I {{ id: ID! }}\ntype Baz implements I {{ id: ID! }}\nenum E {{ A B }}\ninput In {{ x: Int y: [E!]! }}\n{base}"), CfgCase { scalars: vec![("S".into(), ScalarCfg::Single("Foo".into()))], optional: None, runtime: false }, "corpus:clash-union-member"));
+    out.push(Case::text(format!("scalar S\ntype Foo {{ id: ID! }}\ntype Bar {{ id: ID! }}\nunion U = Foo | Bar\ninterface I {{ id: ID! }}\ntype Baz implements I {{ id: ID! }}\nenum E {{ A B }}\ninput In {{ x: Int y: [E!]! }}\n{base}"), CfgCase { scalars: vec![("S".into(), ScalarCfg::SendReceive { send: "Baz | string".into(), receive: "Baz".into() })], optional: Some(false), runtime: false }, "corpus:clash-interface-implementer"));
     // §9-ab: `*/` in descriptions (type level, field level, enum, input field)
-    out.push(Case {
-        sdl: "\"\"\"ends */ the comment\"\"\"\ntype Query { \"field */ doc\" a: Int @deprecated(reason: \"*/ gone\") }\n\"*/\"\nenum E { A }\ninput In { \"x */\" x: Int }\n".into(),
-        cfg: CfgCase { scalars: vec![], optional: None, runtime: false },
-        origin: "corpus:jsdoc-close".into(),
-    });
+    out.push(Case::text("\"\"\"ends */ the comment\"\"\"\ntype Query { \"field */ doc\" a: Int @deprecated(reason: \"*/ gone\") }\n\"*/\"\nenum E { A }\ninput In { \"x */\" x: Int }\n".into(), CfgCase { scalars: vec![], optional: None, runtime: false }, "corpus:jsdoc-close"));
     // the fresh name `__tmp_Foo` is itself an identifier of a scalar text (known open finding)
-    out.push(Case {
-        sdl: "scalar S\ntype Foo { id: ID! }\ntype Query { s: S f: Foo }\n".into(),
-        cfg: CfgCase { scalars: vec![("S".into(), ScalarCfg::Single("Foo | __tmp_Foo".into()))], optional: None, runtime: false },
-        origin: "corpus:fresh-name-captured".into(),
-    });
+    out.push(Case::text("scalar S\ntype Foo { id: ID! }\ntype Query { s: S f: Foo }\n".into(), CfgCase { scalars: vec![("S".into(), ScalarCfg::Single("Foo | __tmp_Foo".into()))], optional: None, runtime: false }, "corpus:fresh-name-captured"));
     // directive-supplied scalar types, and a scalar without any type
-    out.push(Case {
-        sdl: "scalar D @nitrogql_ts_type(resolverInput: \"Date\", resolverOutput: \"Date | string\", operationInput: \"string\", operationOutput: \"string\")\ntype Query { d: D, l: [[D]!] }\ninput In { d: D! ds: [D] }\n".into(),
-        cfg: CfgCase { scalars: vec![], optional: Some(true), runtime: false },
-        origin: "corpus:directive-scalar".into(),
-    });
-    out.push(Case { sdl: "scalar D\ntype Query { d: D }\n".into(), cfg: CfgCase { scalars: vec![], optional: None, runtime: false }, origin: "corpus:scalar-without-type".into() });
+    out.push(Case::text("scalar D @nitrogql_ts_type(resolverInput: \"Date\", resolverOutput: \"Date | string\", operationInput: \"string\", operationOutput: \"string\")\ntype Query { d: D, l: [[D]!] }\ninput In { d: D! ds: [D] }\n".into(), CfgCase { scalars: vec![], optional: Some(true), runtime: false }, "corpus:directive-scalar"));
+    out.push(Case::text("scalar D\ntype Query { d: D }\n".into(), CfgCase { scalars: vec![], optional: None, runtime: false }, "corpus:scalar-without-type"));
     // wrapper depth, recursive inputs, interface implemented through another interface, runtime enums
-    out.push(Case {
-        sdl: "interface Node { id: ID! }\ninterface Named implements Node { id: ID! name: String }\ntype A implements Node & Named { id: ID! name: String l3: [[[Int!]]!] self: A }\ntype B implements Node { id: ID! }\nunion AB = A | B\nenum Color { RED GREEN }\ninput Filter { and: [Filter!] not: Filter c: Color! cs: [[Color]] }\ntype Query { node(f: Filter, ids: [ID!]! = []): Node ab: [AB]! }\ntype Mutation { m(c: Color): Color! }\n".into(),
-        cfg: CfgCase { scalars: vec![("ID".into(), ScalarCfg::Single("string".into()))], optional: Some(false), runtime: true },
-        origin: "corpus:wrappers".into(),
-    });
+    out.push(Case::text("interface Node { id: ID! }\ninterface Named implements Node { id: ID! name: String }\ntype A implements Node & Named { id: ID! name: String l3: [[[Int!]]!] self: A }\ntype B implements Node { id: ID! }\nunion AB = A | B\nenum Color { RED GREEN }\ninput Filter { and: [Filter!] not: Filter c: Color! cs: [[Color]] }\ntype Query { node(f: Filter, ids: [ID!]! = []): Node ab: [AB]! }\ntype Mutation { m(c: Color): Color! }\n".into(), CfgCase { scalars: vec![("ID".into(), ScalarCfg::Single("string".into()))], optional: Some(false), runtime: true }, "corpus:wrappers"));
     // a schema type whose name clashes with the scalar text of ANOTHER scalar and is itself a scalar / enum / input
-    out.push(Case {
-        sdl: "scalar Date\nscalar Stamp\nenum Kind { K }\ninput Range { from: Date to: Stamp k: Kind }\ntype Query { r(x: Range): Date k: Kind s: Stamp }\n".into(),
-        cfg: CfgCase {
+    out.push(Case::text("scalar Date\nscalar Stamp\nenum Kind { K }\ninput Range { from: Date to: Stamp k: Kind }\ntype Query { r(x: Range): Date k: Kind s: Stamp }\n".into(), CfgCase {
             scalars: vec![("Date".into(), ScalarCfg::Single("Date".into())), ("Stamp".into(), ScalarCfg::Separate { resolver_output: "Date | Kind".into(), resolver_input: "Range".into(), operation_output: "string".into(), operation_input: "Record<string, Date>".into() })],
             optional: None,
             runtime: false,
-        },
-        origin: "corpus:clash-leaf-kinds".into(),
-    });
+        }, "corpus:clash-leaf-kinds"));
+    // arguments WITH default values of nullable, list and input-object types (the resolver may still receive null)
+    out.push(Case::text(
+        "input Filter { q: String tags: [String!] = [] n: Int! = 1 }\nenum Order { ASC DESC }\ntype Item { id: ID! tags: [String!] }\ninterface Node { id: ID! }\ntype Other implements Node { id: ID! }\nunion Any = Item | Other\ntype Query { items(first: Int = 10, filter: Filter = { q: \"x\", n: 2 }, tags: [String!] = [], order: Order = ASC, ids: [ID!]! = [], deep: [[Filter]] = null): [Item!]! node(id: ID!): Node any: [Any] }\n".into(),
+        CfgCase { scalars: vec![], optional: Some(false), runtime: false },
+        "corpus:argument-defaults",
+    ));
     out
 }
 
@@ -121,7 +127,15 @@ fn generated(rng: &mut Rng, i: usize) -> Case {
         pc.scalars.retain(|(m, _)| *m != n);
         origin.push_str(":scalar-without-type");
     }
-    Case { sdl: schema.sdl(), cfg: CfgCase::from_project(&pc), origin }
+    // a share of the cases is written with `extend …` items (fields, members, values, `implements`); the abstract
+    // model stays the merged schema
+    let sdl = if i % 3 == 1 {
+        origin.push_str(":extensions");
+        nvh::render::tsdoc_text(&split_into_extensions(rng, &schema))
+    } else {
+        schema.sdl()
+    };
+    Case { sdl, cfg: CfgCase::from_project(&pc), origin, model: Some(with_builtin_scalars(&schema.doc)), model_sdl: Some(schema.sdl()) }
 }
 
 fn doc_tokens(text: &str) -> Option<Vec<String>> {
